@@ -98,6 +98,20 @@ def run_elements(shard):
                 bad('natural atomic_mass %s outside isotope range' % am)
         except Exception as e:
             bad('atomic_mass raised %s' % type(e).__name__)
+        # --- the reference isotope as the constructor reaches it (mass-difference form of the file readers): reference + d for d = -1, 0, +1
+        for d in (-1, 0, 1):
+            acc.transitions += 1
+            try:
+                b = cls(delta_isotope=d)
+                if b.isotope != ref + d:
+                    bad('delta_isotope=%d gives isotope %s, reference isotope is %s' % (d, b.isotope, ref))
+                elif b.isotope in masses and abs(b.atomic_mass - masses[b.isotope]) > 1e-9:
+                    bad('atomic_mass of reference%+d isotope is not the tabulated isotope mass' % d)
+            except ValueError:
+                if ref + d in masses:
+                    bad('delta_isotope=%d rejected although isotope %d is tabulated' % (d, ref + d))
+            except Exception as e:
+                bad('delta_isotope=%d raised %s' % (d, type(e).__name__))
         for i in sorted(masses):
             try:
                 if abs(cls(i).atomic_mass - masses[i]) > 1e-9:
